@@ -606,6 +606,53 @@ def df1(ctx, R):
         return simplify(expected, orc)
     R.check(tag_for(True) == ("const", b"TDSh") and tag_for(False) == ("const", b"TDSm"), "reader.TdmsReader._read_lead_in::expected tag", holder.where(x),
             "TDSh for the index stream, TDSm for the data stream", "the expected tag is %s for the index stream and %s for the data file" % (show(tag_for(True)), show(tag_for(False))))
+    # apart from the tag, the lead-in is parsed the same way from either stream: a test of the mode flag may only choose between the
+    # two tags (anything else it decides - which segments are kept, how a truncated segment is treated - makes what is read depend on
+    # whether an index file is present)
+    if flag in holder.params:
+        def only_tags(nodes):
+            ok_ = True
+            for st_ in nodes:
+                for y in ast.walk(st_):
+                    if isinstance(y, (ast.Raise, ast.Return, ast.Yield, ast.AugAssign)):
+                        ok_ = False
+                    if isinstance(y, ast.Call) and not (call_name(y) or "").startswith(("log.", "logging.", "logger.")):
+                        ok_ = False
+                    if isinstance(y, ast.Assign) and not (isinstance(y.value, ast.Constant) and y.value.value in (b"TDSh", b"TDSm")):
+                        r_ = prog.try_fold(y.value, holder.module, default=None)
+                        if r_ not in (b"TDSh", b"TDSm"):
+                            ok_ = False
+            return ok_
+        other = None
+        unknown = None
+        n_tests = 0
+        in_log = {id(z) for c_ in ast.walk(holder.node) if isinstance(c_, ast.Call) and (call_name(c_) or "").startswith(("log.", "logging.", "logger."))
+                  for z in ast.walk(c_)}
+        for y in ast.walk(holder.node):
+            t_ = None
+            if isinstance(y, ast.IfExp):
+                t_, arms = y.test, None
+                tagsel = all(prog.try_fold(a_, holder.module, default=None) in (b"TDSh", b"TDSm") for a_ in (y.body, y.orelse)) or id(y) in in_log
+                if not tagsel and any(isinstance(z, ast.Name) and z.id == flag for z in ast.walk(t_)):
+                    # a value chosen by the flag that is neither a tag nor a log text: what it is used for is not followed
+                    unknown = y
+                    continue
+            elif isinstance(y, (ast.If, ast.While)):
+                t_ = y.test
+                tagsel = isinstance(y, ast.If) and only_tags(y.body) and only_tags(y.orelse)
+            if t_ is None or not any(isinstance(z, ast.Name) and z.id == flag for z in ast.walk(t_)):
+                continue
+            n_tests += 1
+            if not tagsel:
+                other = y
+        key_ = "%s::mode flag selects the tag only" % holder.qual
+        if other is None and unknown is not None:
+            R.unrecognised(key_, holder.where(unknown), "`%s` chooses a value that is neither a tag nor a log text (`%s`)" % (flag, unparse(unknown)[:60]))
+        elif other is not None:
+            R.violation(key_, holder.where(other), "`%s` makes the lead-in parser treat the index stream differently in more than the tag (`%s ...`): "
+                        "the same file then reads differently with and without its index file" % (flag, unparse(other.test)[:60]))
+        else:
+            R.ok(key_, holder.where(), "%d test(s) of `%s`, each choosing between the two tags" % (n_tests, flag))
     # the tag comparison decides raise / continue
     cfg = ctx.cfg(holder)
     tn = cfg.where(lambda n: n.kind == "test" and any(y is x for y in ast.walk(n.ast)))
